@@ -303,7 +303,7 @@ impl<'a> G<'a> {
         if self.rng.chance(1, 15) {
             "".into()
         } else {
-            self.rng.pick(&["L", "label two"]).to_string()
+            self.rng.pick(&["L", "label two", " padded ", " "]).to_string()
         }
     }
     pub fn msg(&mut self, depth: usize) -> Msg {
